@@ -3,7 +3,6 @@ package otto
 import (
 	"regexp"
 	"strconv"
-	"time"
 )
 
 var (
@@ -23,15 +22,7 @@ var (
 		kind:  valueNumber,
 		value: 0,
 	}
-	prototypeValueDate = dateObject{
-		epoch: 0,
-		isNaN: false,
-		time:  time.Unix(0, 0).UTC(),
-		value: Value{
-			kind:  valueNumber,
-			value: 0,
-		},
-	}
+	prototypeValueDate   = invalidDateObject
 	prototypeValueRegExp = regExpObject{
 		regularExpression: regexp.MustCompile(""),
 		global:            false,
